@@ -13,3 +13,4 @@ tools/sweep_mut.sh C17-m5 seeded/C17-m5/patch.diff C07
 tools/sweep_mut.sh rev-C17b-with-C14 seeded/fix-reverts/C17b-with-C14.diff C17 C12 C14
 tools/sweep_mut.sh C15-m5 seeded/C15-m5/patch.diff C01
 tools/sweep_mut.sh C12-m8 seeded/C12-m8/patch.diff C10
+tools/sweep_mut.sh C07-m10 seeded/C07-m10/patch.diff C18
